@@ -20,6 +20,12 @@ def whole_vec_stream(s, seqname):
     """is stream `s` = iter over the whole vector `seqname`, front to back, possibly under map adaptors?"""
     while isinstance(s, Stream) and s.kind in ('map', 'cloned'):
         s = s.parts[0]
+    if isinstance(s, Stream) and s.kind == 'zip':
+        # two walks over the same whole vector in step (`zip(ends, polys)`) are one walk over it
+        ra, rb = whole_vec_stream(s.parts[0], seqname), whole_vec_stream(s.parts[1], seqname)
+        if ra[0] and rb[0]:
+            return True, ''
+        return False, 'source is a zip of streams that are not both the whole vector: ' + (ra[1] or rb[1])
     if not isinstance(s, Stream) or s.kind != 'src':
         return False, 'source is %s' % (s.kind if isinstance(s, Stream) else type(s).__name__)
     sl = s.parts[0]
@@ -36,7 +42,7 @@ def check(cx):
         f = impl_method(cx.facts, HD, adt(path), 'derivative')
         if f is None:
             continue
-        inst = f['path']
+        inst = inst_of(f)
         file, line = fn_loc(f)
         cs = coeff_syms('self', deg)
 
@@ -87,7 +93,7 @@ def check(cx):
     T = param('T')
     f = impl_method(cx.facts, HD, adt('piecewise::Segment', T), 'derivative')
     if f is not None:
-        inst = f['path']
+        inst = inst_of(f)
         file, line = fn_loc(f)
 
         def go_seg():
@@ -104,7 +110,7 @@ def check(cx):
 
     f = impl_method(cx.facts, HD, adt('piecewise::Piecewise', T), 'derivative')
     if f is not None:
-        inst = f['path']
+        inst = inst_of(f)
         file, line = fn_loc(f)
 
         def go_pw():
